@@ -421,7 +421,7 @@ class AsyncTask(futures.FutureBase):
                 ctx.pause()
             except BaseException as e:
                 error = e
-                core_errors.prepare_for_reraise(error)
+                _prepare_for_reraise(error)
         if error is not None:
             self._accept_error(error)
 
@@ -438,9 +438,17 @@ class AsyncTask(futures.FutureBase):
             except BaseException as e:
                 if error is None:
                     error = e
-                    core_errors.prepare_for_reraise(error)
+                    _prepare_for_reraise(error)
         if error is not None:
             self._accept_error(error)
+
+
+def _prepare_for_reraise(error):
+    try:
+        core_errors.prepare_for_reraise(error)
+    except (AttributeError, TypeError):
+        # the exception object does not accept new attributes (see _accept_error)
+        pass
 
 
 def unwrap(value):
